@@ -10,7 +10,30 @@ Decided:
   R35.2 HTTP/1 serialise/parse agreement: ``Headers.__bytes__`` writes ``name SEP value`` per field and ``_read_headers``
         splits each line ONCE at a delimiter that SEP starts with, keeps the name untouched, strips the rest of SEP from
         the value and appends (name, value) in the order ``__bytes__`` joins them.
-NOT decided: equivalence with an ordered-multimap model over operation histories, equality/copy semantics, obs-fold
+  R35.3 bounded model equivalence: the methods of ``Headers`` (with everything they inherit from MultiDict / _MultiDict /
+        Serializable) are INTERPRETED from their AST (pyint; no repository code is imported or run) on every field list of
+        a bounded universe (names b"A" / b"a" / b"B" - two spellings of one name and a second name -, position-tagged
+        values, optionally one empty value; length <= 2 quick, <= 3 thorough) and every operation of the property:
+        lookup, get_all, delete, iteration, len, items/keys/values (multi or not), add, insert, set_all, assignment,
+        equality, copy.  Return value, raised KeyError and the resulting ``fields`` tuple must satisfy the post-condition
+        of a case-insensitive ordered multimap computed from the field list BEFORE the call:
+          lookup/get_all   values of the fields whose lower-cased name matches, in field order (lookup folds with ", ",
+                           KeyError when there is none); fields untouched
+          iteration        one name per distinct lower-cased name, in order of first occurrence, in the spelling of that
+                           FIRST field; len = number of distinct lower-cased names; items() = (name, folded lookup)
+          delete           KeyError + fields untouched when absent, else exactly the non-matching fields, unchanged
+          add / insert     the new field, as given, at the end / at the index; everything else unchanged
+          set_all / h[k]=v the non-matching fields survive unchanged and in order (spelling and relative order of
+                           untouched fields), and the values now stored under the name are exactly the given ones, in order,
+                           INCLUDING empty ones (WHERE the new fields sit is not prescribed: "removes the old values and
+                           adds new ones")
+          equality / copy  equal to a collection with the same fields, unequal to one with an extra / different field or
+                           to a non-multidict; copy() is a distinct Headers with the same fields
+        Because every post-condition is stated against the implementation's own pre-state and the only state is the
+        ``fields`` tuple (checked: no operation may leave another attribute behind), holding on every field list of the
+        universe means holding along every operation history that stays inside it.
+NOT decided: field lists / histories outside the bounded universe of R35.3, MultiDictView (state behind getter/setter
+callables), the MutableMapping mix-ins (get, pop, update ...: trusted stdlib code over the primitives above), obs-fold
 handling, validity of field names/values.
 """
 
@@ -29,11 +52,14 @@ from ._helpers_E import show
 
 PROP = "C35"
 REG = {
-    "strength": "narrow",
-    "technique": "flow-sensitive key-normalisation dataflow over _MultiDict (raw vs. canonical key classes at every comparison / set insertion) + serialiser/parser separator agreement",
-    "claim": "no _MultiDict operation compares or de-duplicates a raw (non-canonicalised) key or stored field name; deletion and set_all keep "
-    "non-matching fields in place; Headers canonicalises by lower-casing; Headers.__bytes__ and http1 _read_headers agree on the field syntax.",
-    "note": "A necessary discipline, not model equivalence.",
+    "strength": "partial",
+    "technique": "abstract interpretation of the Headers / _MultiDict methods from their AST (pyint) on every field list of a bounded universe against "
+    "the post-conditions of a case-insensitive ordered multimap; flow-sensitive key-normalisation dataflow over _MultiDict; serialiser/parser separator agreement",
+    "claim": "every Headers operation of the property (lookup, get_all, delete, iteration, len, items/keys/values, add, insert, set_all, assignment, "
+    "equality, copy) meets the ordered-multimap post-condition on every field list over two spellings of one name plus a second name, with position-tagged "
+    "and empty values, up to length 2 (quick) / 3 (thorough); no _MultiDict operation compares or de-duplicates a raw key or stored field name; "
+    "Headers.__bytes__ and http1 _read_headers agree on the field syntax.",
+    "note": "R35.3 is a bounded enumeration (stated in the evidence); the MutableMapping mix-ins of the stdlib and str/bytes methods are trusted.",
 }
 
 MD = "mitmproxy/coretypes/multidict.py"
@@ -164,9 +190,474 @@ class _Scan:
         return self.good
 
 
-def check(ctx):
-    ctx.rule("R35.1", "_MultiDict: every comparison / de-duplication involving a key argument or a stored field name uses _kconv on both sides; __delitem__ and set_all keep non-matching fields; Headers._kconv lower-cases")
-    ctx.rule("R35.2", "Headers.__bytes__ and http1 _read_headers agree on 'name SEP value': one split at the delimiter SEP starts with, value stripped, (name, value) order")
+# ---------------------------------------------------------------------------------------------------
+# R35.3: Headers interpreted from its AST against ordered-multimap post-conditions
+
+
+class _Memo:
+    """read-only view of the Model with memoised class-hierarchy queries (the tree does not change during one run; Model re-stats files per query)"""
+
+    def __init__(self, model):
+        self._m = model
+        self._c: dict = {}
+
+    def __getattr__(self, name):
+        return getattr(self._m, name)
+
+    def _memo(self, key, fn):
+        if key not in self._c:
+            self._c[key] = fn()
+        return self._c[key]
+
+    def mro(self, rel, qual):
+        return self._memo(("mro", rel, qual), lambda: self._m.mro(rel, qual))
+
+    def method(self, rel, cls, name):
+        return self._memo(("method", rel, cls, name), lambda: self._m.method(rel, cls, name))
+
+    def resolve_name(self, module, expr):
+        return self._memo(("resolve", module.rel, ast.dump(expr)), lambda: self._m.resolve_name(module, expr))
+
+    def module_by_dotted(self, dotted):
+        return self._memo(("dotted", dotted), lambda: self._m.module_by_dotted(dotted))
+
+
+def _make_interp(model):
+    model = _Memo(model)
+    from ..core import AnalysisError
+    from ..pyint import ClassRef
+    from ..pyint import DictRec
+    from ..pyint import Func
+    from ..pyint import Interp
+    from ..pyint import Raised
+    from ..pyint import Rec
+    from ..pyint import _Return
+
+    class MapInterp(Interp):
+        _kinds: dict = {}
+
+        """pyint + the part of the object protocol a mapping class uses on itself (``k in self``, ``self[k]``, ``len(self)``,
+        ``for k in self``, classmethods, ``map``/``filter``) + the collections.abc mix-ins a class inherits from MutableMapping
+        (trusted stdlib code, expressed over the interpreted primitives)."""
+
+        def bound(self, v):
+            return isinstance(v, Rec) and not isinstance(v, DictRec) and v._impl is not None
+
+        def call_method(self, rec, name, *args):
+            return self.apply(self.getattr(rec, name, None, 0), list(args), {}, 0)
+
+        # -- collections.abc.Mapping / MutableMapping mix-ins over the primitives
+        def mixin(self, rec, attr):
+            if attr == "__contains__":
+                def contains(key):
+                    try:
+                        self.call_method(rec, "__getitem__", key)
+                    except Raised as r:
+                        if r.name == "KeyError":
+                            return False
+                        raise
+                    return True
+                return contains
+            if attr == "get":
+                def get(key, default=None):
+                    try:
+                        return self.call_method(rec, "__getitem__", key)
+                    except Raised as r:
+                        if r.name == "KeyError":
+                            return default
+                        raise
+                return get
+            if attr == "items":
+                return lambda: [(k, self.call_method(rec, "__getitem__", k)) for k in self.iterate(rec, None)]
+            if attr == "keys":
+                return lambda: list(self.iterate(rec, None))
+            if attr == "values":
+                return lambda: [self.call_method(rec, "__getitem__", k) for k in self.iterate(rec, None)]
+            if attr == "update":
+                def update(other=(), **kw):
+                    pairs = list(other.items()) if isinstance(other, dict) else [tuple(x) for x in self.iterate(other, None)]
+                    for k, v in pairs + list(kw.items()):
+                        self.call_method(rec, "__setitem__", k, v)
+                return update
+            if attr == "__init__":
+                return lambda *a, **k: None
+            return None
+
+        def getattr(self, base, attr, node, depth):
+            if self.bound(base) and attr not in base.__dict__:
+                r = self.model.method(base._impl[0], base._impl[1], attr)
+                if r is not None and any(norm_(d) == "classmethod" for d in r[1].decorator_list):
+                    return Func(r[0], r[1], bound=ClassRef(self.model.module(base._impl[0]), self.model.cls(*base._impl)))
+                if r is None and self.find_property(base, attr) is None:
+                    m = self.mixin(base, attr)
+                    if m is not None:
+                        return m
+            if isinstance(base, tuple) and base and base[0] == "$super" and isinstance(base[1], Rec):
+                try:
+                    return super().getattr(base, attr, node, depth)
+                except AnalysisError:
+                    m = self.mixin(base[1], attr)
+                    if m is None:
+                        raise
+                    return m
+            if isinstance(base, ClassRef):
+                r = self.model.method(base.mod.rel, getattr(base.node, "_qual", base.node.name), attr)
+                if r is not None and any(norm_(d) == "classmethod" for d in r[1].decorator_list):
+                    return Func(r[0], r[1], bound=base)
+            return super().getattr(base, attr, node, depth)
+
+        def cmp(self, op, a, b, node):
+            if isinstance(op, (ast.In, ast.NotIn)) and self.bound(b):
+                r = self.truthy(self.apply(self.getattr(b, "__contains__", node, 0), [a], {}, 0))
+                return r if isinstance(op, ast.In) else not r
+            if isinstance(op, (ast.Eq, ast.NotEq)) and (self.bound(a) or self.bound(b)):
+                x, y = (a, b) if self.bound(a) else (b, a)
+                r = x is y or self.truthy(self.apply(self.getattr(x, "__eq__", node, 0), [y], {}, 0))
+                return r if isinstance(op, ast.Eq) else not r
+            return super().cmp(op, a, b, node)
+
+        def iterate(self, v, node):
+            if self.bound(v):
+                return self.iterate(self.apply(self.getattr(v, "__iter__", node, 0), [], {}, 0), node)
+            return super().iterate(v, node)
+
+        def truthy(self, v):
+            if self.bound(v) and self.model.method(v._impl[0], v._impl[1], "__len__") is not None:
+                return self.call_method(v, "__len__") != 0
+            return super().truthy(v)
+
+        def native_call(self, f, args, kwargs, where):
+            if args and self.bound(args[0]) and not kwargs:
+                if f is len and len(args) == 1:
+                    return self.call_method(args[0], "__len__")
+                if f in (list, tuple, set, frozenset, sorted, reversed) and len(args) == 1:
+                    return f(list(self.iterate(args[0], None)))
+            return super().native_call(f, args, kwargs, where)
+
+        def name(self, ident, env, mod, depth, node):
+            if ident in ("map", "filter") and ident not in env and mod.get(ident) is None and ident not in mod.imports and not mod.assigns(ident):
+                return ("$builtin", ident)
+            if ident == "object" and ident not in env and mod.get(ident) is None and ident not in mod.imports and not mod.assigns(ident):
+                return object  # sentinel idiom: ``missing = object()``
+            return super().name(ident, env, mod, depth, node)
+
+        def builtin(self, name, args, kwargs, e, env, mod, depth):
+            if name == "map" and len(args) >= 2:
+                cols = [list(self.iterate(a, e)) for a in args[1:]]
+                return iter([self.apply(args[0], list(xs), {}, depth, e) for xs in zip(*cols)])
+            if name == "filter" and len(args) == 2:
+                xs = list(self.iterate(args[1], e))
+                return iter([x for x in xs if self.truthy(x if args[0] is None else self.apply(args[0], [x], {}, depth, e))])
+            if name == "iter" and len(args) == 1 and self.bound(args[0]):
+                return iter(list(self.iterate(args[0], e)))
+            return super().builtin(name, args, kwargs, e, env, mod, depth)
+
+        # -- speed: pyint renders every call to text (externals lookup, error position) and re-walks every callee for yield/await;
+        #    thousands of short runs make that the dominant cost.  Same semantics, computed lazily / once per function.
+        def ev_call(self, e, env, mod, depth):
+            if self.externals:
+                return super().ev_call(e, env, mod, depth)
+            f = self.ev(e.func, env, mod, depth)
+            args = self.elts(e.args, env, mod, depth)
+            kwargs = {}
+            for k in e.keywords:
+                if k.arg is None:
+                    kwargs.update(self.ev(k.value, env, mod, depth))
+                else:
+                    kwargs[k.arg] = self.ev(k.value, env, mod, depth)
+            if isinstance(f, tuple) and f and f[0] in ("$builtin", "$dictmethod", "$typing", "$exc"):
+                if f[0] == "$builtin":
+                    return self.builtin(f[1], args, kwargs, e, env, mod, depth)
+                if f[0] == "$exc":
+                    return f"<exc:{f[1]}>"
+                return super().ev_call(e, env, mod, depth)  # rare: let pyint handle it (arguments are pure here)
+            return self.apply(f, args, kwargs, depth, e)
+
+        def apply(self, f, args, kwargs, depth, node=None):
+            if isinstance(f, Func) and depth + 1 <= self.max_depth:
+                self.calls += 1
+                return self.call_func(f, args, kwargs, depth + 1)
+            return super().apply(f, args, kwargs, depth, node)
+
+        def call_func(self, f, args, kwargs, depth):
+            node = f.node
+            kind = self._kinds.get(id(node))
+            if kind is None:
+                kind = "other" if isinstance(node, ast.Lambda) else "plain"
+                if not isinstance(node, ast.Lambda):
+                    for n in ast.walk(node):
+                        if isinstance(n, (ast.Await, ast.Yield, ast.YieldFrom)) and self._owner(n, node):
+                            kind = "other"
+                            break
+                    a = node.args
+                    if a.vararg or a.kwarg or a.kwonlyargs or a.posonlyargs or kwargs:
+                        kind = "other" if kind == "other" else "plain-general"
+                self._kinds[id(node)] = kind
+            if kind != "plain" or kwargs:
+                return super().call_func(f, args, kwargs, depth)
+            # plain function, positional parameters only, no yield/await: bind and run (what pyint.call_func does on this shape)
+            a = node.args
+            env = {"$closure": f.closure} if f.closure else {}
+            params = [p.arg for p in a.args]
+            args = list(args)
+            if f.bound is not None and params and params[0] in ("self", "cls"):
+                args = [f.bound] + args
+                env["$self"] = f.bound
+                env["$fn"] = node
+            if len(args) > len(params):
+                raise Raised("TypeError", "too many positional arguments")
+            for p_, v in zip(params, args):
+                env[p_] = v
+            for p_, d in zip(params[len(params) - len(a.defaults):], a.defaults):
+                if p_ not in env:
+                    env[p_] = self.ev(d, {}, f.mod, depth)
+            for p_ in params:
+                if p_ not in env:
+                    raise Raised("TypeError", f"missing argument {p_}")
+            try:
+                self.block(node.body, env, f.mod, depth)
+            except _Return as r:
+                return r.value
+            return None
+
+        def ev(self, e, env, mod, depth):
+            if isinstance(e, ast.Subscript) and isinstance(e.ctx, ast.Load):
+                base = self.ev(e.value, env, mod, depth)
+                if self.bound(base):
+                    return self.apply(self.getattr(base, "__getitem__", e, depth), [self.ev(e.slice, env, mod, depth)], {}, depth, e)
+                env2 = dict(env)
+                env2["$subscripted"] = base
+                return super().ev(ast.Subscript(value=ast.Name(id="$subscripted", ctx=ast.Load()), slice=e.slice, ctx=e.ctx), env2, mod, depth)
+            return super().ev(e, env, mod, depth)
+
+    it = MapInterp(model, max_steps=4_000_000)
+    it._kinds = {}
+    return it, Rec, Raised
+
+
+def norm_(node):
+    return ast.unparse(node)
+
+
+def _b(x):
+    return x.encode("utf-8", "surrogateescape") if isinstance(x, str) else bytes(x)
+
+
+def _s(x):
+    return x.decode("utf-8", "surrogateescape") if isinstance(x, bytes) else x
+
+
+def _universe(max_len, all_empties=True):
+    """field lists: every name sequence over (A, a, B) up to max_len, values tagged with their position; plus the variants with one empty value
+    (quick tier: the empty value in the first position only)"""
+    import itertools
+
+    out = []
+    for n in range(max_len + 1):
+        for names in itertools.product((b"A", b"a", b"B"), repeat=n):
+            base = tuple((k, b"v%d" % i) for i, k in enumerate(names))
+            out.append(base)
+            for j in range(n if all_empties else min(n, 1)):
+                out.append(tuple((k, b"" if i == j else v) for i, (k, v) in enumerate(base)))
+    return out
+
+
+def _ops(fields, full):
+    """(operation class, method, args) for one pre-state; ``full`` (thorough tier) adds more spellings / value lists of the same classes"""
+    n = len(fields)
+    ops = []
+    for k in (b"a", b"A", "B", b"c") if full else (b"a", "B", b"c"):
+        ops.append(("get_all", "get_all", (k,)))
+        ops.append(("lookup", "__getitem__", (k,)))
+    for k in (b"a", "B", b"c") if full else (b"A", b"c"):
+        ops.append(("delete", "__delitem__", (k,)))
+    ops += [("iteration", "__iter__", ()), ("len", "__len__", ()), ("items", "items", ()), ("items(multi)", "items", (True,)), ("keys", "keys", ())]
+    if full:
+        ops += [("keys(multi)", "keys", (True,)), ("values", "values", ()), ("values(multi)", "values", (True,))]
+    for k, v in ((b"a", b""), (b"a", "x"), ("C", b""), ("C", "x")) if full else ((b"a", b""), ("C", "x")):
+        ops.append(("add", "add", (k, v)))
+    for i in range(n + 1):
+        ops.append(("insert", "insert", (i, b"a" if i % 2 else "b", b"x")))
+    for k in (b"a", b"A", "b", b"c") if full else (b"a", "b", b"c"):
+        for vals in ([], [b""], [b"x"], [b"x", b""], [b"", "y"], ["x", b"y", b"z"]) if full else ([], [b""], [b"x", b""], ["x", b"y", b"z"]):
+            ops.append(("set_all", "set_all", (k, vals)))
+    for k, v in ((b"a", b""), (b"a", "x"), ("B", b""), ("B", "x"), (b"c", b""), (b"c", "x")) if full else ((b"A", b""), ("b", "x"), (b"c", b"")):
+        ops.append(("assignment", "__setitem__", (k, v)))
+    ops += [("equality", "__eq__", ("same",)), ("equality", "__eq__", ("extra",)), ("equality", "__eq__", ("foreign",)), ("copy", "copy", ())]
+    if n:
+        ops.append(("equality", "__eq__", ("changed",)))
+    return ops
+
+
+def _post(cls, meth, args, pre, how, ret, post):
+    """None if the ordered-multimap post-condition holds, else a short description of the deviation."""
+    def canon(k):
+        return _b(k).lower()
+
+    def same_fields():
+        return None if post == pre else f"the fields change to {list(post)}"
+
+    def matching(k, fs=pre):
+        return [_s(v) for n_, v in fs if n_.lower() == canon(k)]
+
+    def names(fs=pre):
+        seen, out = set(), []
+        for n_, _ in fs:
+            if n_.lower() not in seen:
+                seen.add(n_.lower())
+                out.append(_s(n_))
+        return out
+
+    def folded(k):
+        return ", ".join(matching(k))
+
+    def expect_ret(want):
+        if how != "return":
+            return f"raises {how}, expected {want!r}"
+        got = list(ret) if isinstance(want, list) and isinstance(ret, (list, tuple)) else ret
+        if isinstance(want, list):
+            got = [tuple(x) if isinstance(x, list) else x for x in got] if isinstance(got, list) else got
+        return None if got == want and type(got) is type(want) else f"returns {ret!r}, expected {want!r}"
+
+    if how not in ("return", "KeyError"):
+        return f"raises {how}"
+    if cls == "get_all":
+        return expect_ret(matching(args[0])) or same_fields()
+    if cls == "lookup":
+        if not matching(args[0]):
+            return (None if how == "KeyError" else f"returns {ret!r} for an absent name, expected KeyError") or same_fields()
+        return expect_ret(folded(args[0])) or same_fields()
+    if how == "KeyError" and cls != "delete":
+        return "raises KeyError"
+    if cls == "delete":
+        if not matching(args[0]):
+            return (None if how == "KeyError" else "deleting an absent name does not raise KeyError") or same_fields()
+        want = tuple(f for f in pre if f[0].lower() != canon(args[0]))
+        return ("raises KeyError although the name is present" if how == "KeyError" else None) or (None if post == want else f"the fields become {list(post)}, expected {list(want)}")
+    if cls == "iteration":
+        return expect_ret(names()) or same_fields()
+    if cls == "len":
+        return expect_ret(len(names())) or same_fields()
+    if cls == "items":
+        return expect_ret([(k, folded(k)) for k in names()]) or same_fields()
+    if cls == "keys":
+        return expect_ret(names()) or same_fields()
+    if cls == "values":
+        return expect_ret([folded(k) for k in names()]) or same_fields()
+    if cls == "items(multi)":
+        return expect_ret([(_s(k), _s(v)) for k, v in pre]) or same_fields()
+    if cls == "keys(multi)":
+        return expect_ret([_s(k) for k, _ in pre]) or same_fields()
+    if cls == "values(multi)":
+        return expect_ret([_s(v) for _, v in pre]) or same_fields()
+    if cls == "add":
+        want = pre + ((_b(args[0]), _b(args[1])),)
+        return None if post == want else f"the fields become {list(post)}, expected {list(want)}"
+    if cls == "insert":
+        i = args[0]
+        want = pre[:i] + ((_b(args[1]), _b(args[2])),) + pre[i:]
+        return None if post == want else f"the fields become {list(post)}, expected {list(want)}"
+    if cls in ("set_all", "assignment"):
+        k = args[0]
+        vals = [args[1]] if cls == "assignment" else list(args[1])
+        if not (isinstance(post, tuple) and all(isinstance(f, tuple) and len(f) == 2 and isinstance(f[0], bytes) and isinstance(f[1], bytes) for f in post)):
+            return f"the fields become {post!r}: not a tuple of (bytes, bytes) pairs"
+        keep_pre = [f for f in pre if f[0].lower() != canon(k)]
+        keep_post = [f for f in post if f[0].lower() != canon(k)]
+        if keep_pre != keep_post:
+            return f"the untouched fields {keep_pre} become {keep_post}"
+        if matching(k, post) != [_s(v) for v in vals]:
+            return f"the values stored under the name become {matching(k, post)}, expected {[_s(v) for v in vals]} (fields {list(post)})"
+        return None
+    raise AssertionError(cls)
+
+
+def _show_call(meth, args):
+    m = {"__getitem__": "h[{0!r}]", "__delitem__": "del h[{0!r}]", "__setitem__": "h[{0!r}] = {1!r}", "__iter__": "list(h)", "__len__": "len(h)", "__eq__": "h == <{0}>", "copy": "h.copy()"}
+    if meth in m:
+        return m[meth].format(*args)
+    return f"h.{meth}({', '.join(repr(a) for a in args)})"
+
+
+def r35_3(ctx):
+    import copy as _copy
+
+    m = ctx.model
+    it, Rec, Raised = _make_interp(m)
+    ctx.require(m.has(HTTP, "Headers"), "http.Headers vanished")
+    anc = [c.name for _, c in m.mro(HTTP, "Headers")]
+    ctx.require("_MultiDict" in anc, f"Headers no longer derives from _MultiDict: {anc}")
+    max_len = 3 if ctx.tier == "thorough" else 2
+    universe = _universe(max_len, all_empties=ctx.tier == "thorough")
+
+    def fresh(fields):
+        return Rec("Headers", _bases=tuple(anc[1:]), _impl=(HTTP, "Headers"), fields=tuple(fields))
+
+    def where_of(meth):
+        r = m.method(HTTP, "Headers", meth)
+        if r is None:
+            return (HTTP, "Headers", m.cls(HTTP, "Headers")), f"Headers.{meth}"
+        qual = getattr(r[1], "_qual", meth)
+        return (r[0].rel, qual, r[1]), qual
+
+    counts: dict = {}
+    bad: dict = {}
+    n = 0
+    for pre in universe:
+        for cls, meth, args in _ops(pre, ctx.tier == "thorough"):
+            h = fresh(pre)
+            call_args = [_copy.deepcopy(a) for a in args]
+            others = {}
+            if meth == "__eq__":
+                kind = args[0]
+                others = {"same": fresh(pre), "extra": fresh(pre + ((b"B", b"z"),)), "foreign": list(pre),
+                          "changed": fresh(tuple((k, v + b"!") if i == len(pre) - 1 else (k, v) for i, (k, v) in enumerate(pre)))}
+                call_args = [others[kind]]
+            how, ret = "return", None
+            try:
+                ret = it.method(h, meth, *call_args)
+                if cls in ("iteration", "items", "items(multi)", "keys", "keys(multi)", "values", "values(multi)"):
+                    ret = [tuple(x) if isinstance(x, list) else x for x in it.iterate(ret, None)]
+            except Raised as r:
+                how = r.name
+            n += 1
+            extra = set(h.__dict__) - {"fields", "_cls", "_bases", "_impl", "_name", "_items"}
+            ctx.require(not extra, f"Headers.{meth} leaves attribute(s) {sorted(extra)} behind: state other than `fields` is not modelled by R35.3")
+            post = h.fields
+            if cls == "equality":
+                want = args[0] == "same"
+                problem = None if (how == "return" and ret is want) else f"{'raises ' + how if how != 'return' else 'returns ' + repr(ret)}, expected {want}"
+                problem = problem or (None if post == pre else f"the fields change to {list(post)}")
+            elif cls == "copy":
+                if how != "return":
+                    problem = f"raises {how}"
+                elif not (isinstance(ret, Rec) and ret is not h and ret.isa("Headers")):
+                    problem = f"returns {ret!r}, expected a new Headers"
+                else:
+                    problem = None if (ret.fields == pre and post == pre) else f"the copy has fields {list(ret.fields)}, the original {list(post)}"
+            else:
+                problem = _post(cls, meth, args, pre, how, ret, post)
+            counts[cls] = counts.get(cls, 0) + 1
+            if problem and cls not in bad:
+                bad[cls] = (meth, pre, args, problem)  # the universe is enumerated shortest-first: a minimal witness
+    ctx.cells += n
+    for cls in counts:
+        if cls in bad:
+            meth, pre, args, problem = bad[cls]
+            where, qual = where_of(meth)
+            ctx.fail("R35.3", where, f"{cls}: fields {list(pre)} ; {_show_call(meth, args)} : {problem}"[:300],
+                     f"Headers does not behave as a case-insensitive ordered multimap for {cls} ({qual})")
+        else:
+            ctx.ok("R35.3", f"{cls}: {counts[cls]} (field list, call) cases meet the post-condition")
+    ctx.bounds.append(f"R35.3: all {len(universe)} field lists over names A/a/B with position-tagged values (at most one empty{'' if ctx.tier == 'thorough' else ', in the first position'}) up to length {max_len}; "
+                      "call arguments over the spellings a/A/B/b, an absent name, bytes and str forms, empty and non-empty new values, 0-3 values for set_all")
+    ctx.trust("collections.abc Mapping/MutableMapping mix-ins (__contains__, get, items, update) behave as documented over __getitem__/__setitem__/__iter__; bytes/str methods")
+    ctx.functions.update({f"{HTTP}::Headers.{x}" for x in ("__iter__", "get_all", "set_all", "insert", "items", "__delitem__")})
+    if not bad:
+        ctx.expect_instances("R35.3", 17 if ctx.tier == "thorough" else 14)
+
+
+def _r35_1(ctx):
     m = ctx.model
     md = m.cls(MD, "_MultiDict")
     meths = methods(md)
@@ -243,7 +734,10 @@ def check(ctx):
     ctx.check(okk, "R35.1", (HTTP, "Headers._kconv", hk), f"Headers._kconv returns {ast.unparse(rets[0].value) if rets else '?'}",
               "header names are not canonicalised by lower-casing: lookups are case-sensitive", desc="Headers._kconv = key.lower()")
     ctx.require(total >= 5 or any(f.rule == "R35.1" for f in ctx.findings), f"_MultiDict: only {total} canonical comparisons recognised (expected >= 5)")
+    expect(ctx, "R35.1", 9)
 
+
+def _r35_2(ctx):
     # ---- R35.2
     hb = ctx.func(HTTP, "Headers.__bytes__")
     joins = [n for n in ast.walk(hb) if isinstance(n, ast.Call) and isinstance(n.func, ast.Attribute) and n.func.attr == "join" and isinstance(n.func.value, ast.Constant) and isinstance(n.func.value.value, bytes)]
@@ -288,9 +782,17 @@ def check(ctx):
         ctx.fail("R35.2", (READ, "_read_headers", sp), f"__bytes__ joins with {sep!r}; _read_headers: {ast.unparse(asg)}", p_)
     if not probs:
         ctx.ok("R35.2", f"name{sep.decode()!r}value: split once at {delim!r}, value stripped, (name, value) order, CRLF between fields")
-
-    expect(ctx, "R35.1", 9)
     expect(ctx, "R35.2", 1)
+
+
+def check(ctx):
+    ctx.rule("R35.1", "_MultiDict: every comparison / de-duplication involving a key argument or a stored field name uses _kconv on both sides; __delitem__ and set_all keep non-matching fields; Headers._kconv lower-cases")
+    ctx.rule("R35.2", "Headers.__bytes__ and http1 _read_headers agree on 'name SEP value': one split at the delimiter SEP starts with, value stripped, (name, value) order")
+    ctx.rule("R35.3", "Headers, interpreted from its AST on every field list of a bounded universe, meets the post-conditions of a case-insensitive ordered multimap for every operation of the property")
+    # each rule is guarded: a shape one rule does not model must not hide a violation found by another
+    ctx.guard(r35_3, ctx)
+    ctx.guard(_r35_1, ctx)
+    ctx.guard(_r35_2, ctx)
 
 
 MUTANTS = [
@@ -305,6 +807,20 @@ MUTANTS = [
     Mutant("set-all-drops-other-fields", MD, "            else:\n                new_fields.append(field)\n", "", "R35.1"),
     Mutant("set-all-moves-other-fields-to-front", MD, "            else:\n                new_fields.append(field)\n", "            else:\n                new_fields.insert(0, field)\n", "R35.1"),
     Mutant("headers-kconv-identity", HTTP, "        # Headers are case-insensitive\n        return key.lower()\n", "        # Headers are case-insensitive\n        return key\n", "R35.1"),
+    # R35.3 (model equivalence by interpretation)
+    Mutant("set-all-drops-empty-replacement-value", MD, "                if values:\n                    new_fields.append((field[0], values.pop(0)))\n",
+           "                if values:\n                    value = values.pop(0)\n                    if value:\n                        new_fields.append((field[0], value))\n", "R35.3"),
+    Mutant("headers-iter-last-spelling-via-dict", HTTP, "        for x in super().__iter__():\n            yield _native(x)\n",
+           "        names = {self._kconv(name): name for name, _ in self.fields}\n        return iter([_native(x) for x in names.values()])\n", "R35.3"),
+    Mutant("get-all-skips-empty-values", MD, "return [value for k, value in self.fields if self._kconv(k) == key]", "return [value for k, value in self.fields if value and self._kconv(k) == key]", "R35.3"),
+    Mutant("set-all-appends-surplus-values-reversed", MD, "        while values:\n            new_fields.append((key, values.pop(0)))\n", "        while values:\n            new_fields.append((key, values.pop()))\n", "R35.3"),
+    Mutant("add-prepends", MD, "self.insert(len(self.fields), key, value)", "self.insert(0, key, value)", "R35.3"),
+    Mutant("insert-replaces-the-field-at-index", MD, "self.fields = self.fields[:index] + (item,) + self.fields[index:]", "self.fields = self.fields[:index] + (item,) + self.fields[index + 1:]", "R35.3"),
+    Mutant("delete-removes-first-match-only", MD, "        self.fields = tuple(\n            field for field in self.fields if key != self._kconv(field[0])\n        )\n",
+           "        i = [self._kconv(field[0]) for field in self.fields].index(key)\n        self.fields = self.fields[:i] + self.fields[i + 1:]\n", "R35.3"),
+    Mutant("equality-ignores-values", MD, "            return self.fields == other.fields\n", "            return [k for k, _ in self.fields] == [k for k, _ in other.fields]\n", "R35.3"),
+    Mutant("lookup-returns-first-value-only", HTTP, "        # Headers can be folded\n        return \", \".join(values)\n", "        # Headers can be folded\n        return values[0]\n", "R35.3"),
+    Mutant("items-multi-loses-repeated-names", HTTP, "            return ((_native(k), _native(v)) for k, v in self.fields)\n", "            return {_native(k): _native(v) for k, v in self.fields}.items()\n", "R35.3"),
     Mutant("parser-splits-every-colon", READ, "name, value = line.split(b\":\", 1)", "name, value = line.split(b\":\")", "R35.2"),
     Mutant("parser-keeps-leading-space", READ, "                value = value.strip()\n", "", "R35.2"),
     Mutant("serialiser-pads-name", HTTP, "b\": \".join(field) for field in self.fields", "b\" : \".join(field) for field in self.fields", "R35.2"),
